@@ -347,6 +347,17 @@ static void bytesCase(uint64_t k, Rng &rng, std::ostream &o) {
 			bool r = (s2 == std::span<const std::byte>(cmp.data(), cmp.size()));
 			o << "by e " << vh::bitsToString(s2) << ' ' << hex(cmp) << " -> " << r << '\n';
 		}
+		// asData(state, dst, filler): export to bytes, undefined bits taken from the (cyclically repeated) filler bytes
+		for (int t = 0; t < 3; t++) {
+			DefaultBitVectorState s2 = st;
+			for (size_t i = 0; i < s2.size(); i++) if (rng.chance(1, 5)) s2.set(DefaultConfig::DEFINED, i, false);
+			if (rng.chance(1, 4)) s2.clearRange(DefaultConfig::DEFINED, 0, s2.size());
+			std::vector<std::byte> filler(rng.below(4));
+			for (auto &b : filler) b = (std::byte) (rng.chance(1, 4) ? 255 : rng.chance(1, 4) ? 0 : rng.below(256));
+			std::vector<std::byte> dst(nb, (std::byte) 0x5a);
+			asData(s2, std::span<std::byte>(dst), std::span<const std::byte>(filler));
+			o << "by a " << vh::bitsToString(s2) << ' ' << hex(filler) << " -> " << hex(dst) << '\n';
+		}
 	} catch (const std::exception &e) { o << "byerr " << e.what() << '\n'; }
 	o << "end\n";
 }
